@@ -35,6 +35,8 @@ def replay(body):
             print('VIOLATION property=C03 replay=(given)')
             return 1
         return 0
+    if 'variant' not in a:
+        return cl.replay_case(body, 'C03')
     pattern = cl.pattern_from_desc(a['pattern'])
     frame = (np.array(a['frame_ints'], dtype=np.float64) / a['one']).astype(np.float32)
     run = cl.run_fast if a['method'] == 'fast' else cl.run_full
